@@ -754,6 +754,12 @@ func (d *DNS) SerializeTo(b gopacket.SerializeBuffer, opts gopacket.SerializeOpt
 	if err != nil {
 		return err
 	}
+	// The prepended bytes are not zeroed, and a record whose data does not have
+	// the size its type implies (an A record without a 4 byte address...) does
+	// not fill the space reserved for it.
+	for i := range bytes {
+		bytes[i] = 0
+	}
 	binary.BigEndian.PutUint16(bytes, d.ID)
 	bytes[2] = byte((b2i(d.QR) << 7) | (int(d.OpCode) << 3) | (b2i(d.AA) << 2) | (b2i(d.TC) << 1) | b2i(d.RD))
 	// The header carries the low 4 bits of the response code; the upper bits of an
